@@ -10,6 +10,7 @@ package robase64
 //@ func Decode$1
 //@   props C18
 //@   binds v encoder
+//@   calls DecodeString
 //@   maypanic
 //@   track call.*
 //@   ensures [calls-the-wrapped-function-once|C18] count(call.ANY) == 1 && called(call.Encoding.DecodeString)
@@ -19,6 +20,7 @@ package robase64
 //@ func Encode$1
 //@   props C18
 //@   binds v encoder
+//@   calls EncodeToString
 //@   maypanic
 //@   track call.*
 //@   ensures [calls-the-wrapped-function-once|C18] count(call.ANY) == 1 && called(call.Encoding.EncodeToString)
